@@ -9,6 +9,7 @@ import (
 
 	"verif/harness/c14"
 	"verif/harness/c17"
+	"verif/harness/cw"
 	"verif/harness/c20"
 )
 
@@ -33,6 +34,8 @@ func main() {
 		} else {
 			c14.Run(*out)
 		}
+	case "wr":
+		cw.Run(*out, *mode)
 	case "c17":
 		c17.Run(*out)
 	case "c20":
